@@ -344,3 +344,41 @@ pub fn report_value(stdout: &[u8], name: &str) -> Option<u64> {
     }
     None
 }
+
+/// The `FEE IDs seen` cell of the report table: the IDs listed (over several lines) and the count behind
+/// `... K more`, if the list was cut (None: no such row).
+pub fn report_fee_ids(stdout: &[u8]) -> Option<(Vec<u64>, u64)> {
+    let s = strip_ansi(&String::from_utf8_lossy(stdout));
+    let lines: Vec<&str> = s.split('\n').collect();
+    let start = lines.iter().position(|l| l.contains("FEE IDs seen"))?;
+    let mut cell = String::new();
+    for (i, l) in lines.iter().enumerate().skip(start) {
+        let inner = l.trim_start_matches(|c: char| c == '│' || c == '|');
+        if i > start {
+            // a continuation line of the cell has an empty label column
+            let label: String = inner.chars().take(18).collect();
+            if !label.trim().is_empty() {
+                break;
+            }
+        }
+        let body = if i == start { inner.splitn(2, "FEE IDs seen").nth(1).unwrap_or("") } else { inner };
+        cell.push(' ');
+        cell.push_str(body.trim_end_matches(|c: char| c == '│' || c == '|' || c.is_whitespace()));
+    }
+    let toks: Vec<&str> = cell.split_whitespace().collect();
+    let mut ids = Vec::new();
+    let mut more = 0u64;
+    let mut i = 0;
+    while i < toks.len() {
+        if toks[i] == "..." {
+            more = toks.get(i + 1).and_then(|t| t.parse().ok())?;
+            break;
+        }
+        match toks[i].parse::<u64>() {
+            Ok(v) => ids.push(v),
+            Err(_) => break,
+        }
+        i += 1;
+    }
+    Some((ids, more))
+}
